@@ -7,7 +7,9 @@
      keys  : x<key>*        (attribute keys of the one measurement every instrument gets)
      mop   : M x<name> x<version> x<schema>  |  I <itype 0..5> <vtype 0/1> x<name> x<desc> x<unit>
      top   : G x<name> x<version> x<schema>
-     lop   : G x<logger name> x<library name> x<version> x<schema> { x<key> ( <int> | x<string> ) } *)
+     lop   : G x<logger name> x<library name> x<version> x<schema> { x<key> ( <int> | x<string> ) }
+     PRACE (T|M|L) | <rules> | T <op> ; <op> ... | T ... | s <tid> <flag> ...
+           concurrent Get* calls on one provider under the scheduler shim; op = top for T and M, lop for L *)
 From V Require Export C19.Spec.
 Local Open Scope Z_scope.
 
@@ -17,7 +19,9 @@ Inductive case :=
 | CPred (pattern_kind : bool) (raw s : bytes)
 | CMet (r : rules) (d : bool) (vs : list view) (keys : list bytes) (ops : list mop)
 | CTr (r : rules) (d : bool) (ops : list scope_id)
-| CLg (r : rules) (d : bool) (ops : list lreq).
+| CLg (r : rules) (d : bool) (ops : list lreq)
+(* kind: 0 TracerProvider 1 MeterProvider 2 LoggerProvider; the schedule of the case is not part of the parsed case *)
+| CPrace (kind : N) (r : rules) (d : bool) (threads : list (list lreq)).
 
 Fixpoint all_some {A} (l : list (option A)) : option (list A) :=
   match l with
@@ -106,6 +110,30 @@ Definition parse_lop (l : list tok) : option lreq :=
   | _ => None
   end.
 
+(* a tracer / meter request as a logger-shaped request: no logger name, no attributes *)
+Definition lreq_of_scope (s : scope_id) : lreq := mk_lreq [] (sc_name s) (sc_ver s) (sc_schema s) [].
+Definition parse_pop (kind : N) (l : list tok) : option lreq :=
+  if (kind =? 2)%N then parse_lop l else option_map lreq_of_scope (parse_top l).
+(* thread sections "T <op> ; ..." followed by one schedule section "s ..." *)
+Fixpoint parse_threads (kind : N) (secs : list (list tok)) : option (list (list lreq)) :=
+  match secs with
+  | [] => None
+  | [t :: _] => if is_tag "s" t then Some [] else None
+  | (t :: ops) :: secs' =>
+      if is_tag "T" t then
+        match all_some (map (parse_pop kind) (members ops)), parse_threads kind secs' with
+        | Some th, Some rest => Some (th :: rest)
+        | _, _ => None
+        end
+      else None
+  | [] :: _ => None
+  end.
+Definition parse_kind (sec : list tok) : option N :=
+  match sec with
+  | [t] => if is_tag "T" t then Some 0%N else if is_tag "M" t then Some 1%N else if is_tag "L" t then Some 2%N else None
+  | _ => None
+  end.
+
 Definition parse_case (l : list tok) : option case :=
   match l with
   | [t; TB s] => if is_tag "NAME" t then Some (CNameC s) else if is_tag "UNIT" t then Some (CUnitC s) else None
@@ -130,6 +158,15 @@ Definition parse_case (l : list tok) : option case :=
         | [rs; osec] =>
             match parse_rules rs, all_some (map parse_top (members osec)) with
             | Some (r, d), Some ops => Some (CTr r d ops)
+            | _, _ => None
+            end
+        | _ => None
+        end
+      else if is_tag "PRACE" t then
+        match sections rest with
+        | ksec :: rs :: tsecs =>
+            match parse_kind ksec, parse_rules rs with
+            | Some kind, Some (r, d) => option_map (CPrace kind r d) (parse_threads kind tsecs)
             | _, _ => None
             end
         | _ => None
@@ -160,6 +197,22 @@ Definition print_aval (v : aval) : tok := match v with AInt z => TZ z | AStr s =
 Definition print_lrec (rc : lrec) : list tok :=
   tag "E" :: tnat (r_call rc) :: print_scope (r_scope rc) ++ flat_map (fun kv => [TB (fst kv); print_aval (snd kv)]) (r_attrs rc).
 Definition print_lg (st : lstate) : list tok := map tnat (ls_out st) ++ flat_map print_lrec (ls_recs st).
+
+Definition print_hobs (h : hobs) : list tok :=
+  tag "H" :: tnat (h_class h) :: tbool (h_enabled h) :: print_scope (h_scope h) ++
+  flat_map (fun kv => [TB (fst kv); print_aval (snd kv)]) (h_attrs h).
+
+(* the provider under concurrent requests is the sequential registry applied to the script (threads in order, then the
+   same requests again): the answer does not depend on the order in which the requests are served *)
+Definition prace_indices (kind : N) (r : rules) (d : bool) (reqs : list lreq) : list nat :=
+  if (kind =? 0)%N then ts_out (run_tr r d (map q_scope reqs))
+  else if (kind =? 1)%N then fst (run_met r d [] [] (map (fun q => MGet (q_scope q)) reqs))
+  else ls_out (run_lg r d reqs).
+Definition prace_model (kind : N) (r : rules) (d : bool) (threads : list (list lreq)) : list hobs :=
+  let script := concat threads in
+  let reqs := script ++ script in
+  map (fun iq => mk_hobs (fst iq) (compute_config r d (q_scope (snd iq))) (q_scope (snd iq)) (amap_of (q_attrs (snd iq))))
+      (combine (prace_indices kind r d reqs) reqs).
 
 (* ---------------------------------------------------------------- observation parsers *)
 Fixpoint leading_nats (l : list tok) : list nat * list tok :=
@@ -211,6 +264,20 @@ Definition parse_lg_obs (l : list tok) : option (list nat * list lrec) :=
   | Some ms => option_map (pair idx) (all_some (map parse_lrec ms))
   | None => None
   end.
+Definition parse_hobs (l : list tok) : option hobs :=
+  match l with
+  | TZ c :: e :: TB a :: TB b :: TB c' :: rest =>
+      match parse_bool e, parse_attrs rest with
+      | Some e', Some at' => Some (mk_hobs (Z.to_nat c) e' (mk_scope a b c') at')
+      | _, _ => None
+      end
+  | _ => None
+  end.
+Definition parse_prace_obs (l : list tok) : option (list hobs) :=
+  match tagged_members "H" l with
+  | Some ms => all_some (map parse_hobs ms)
+  | None => None
+  end.
 Definition parse_flag (name : string) (l : list tok) : option bool :=
   match l with
   | [t; b] => if is_tag name t then parse_bool b else None
@@ -243,6 +310,7 @@ Definition run_model (l : list tok) : list tok :=
   | Some (CMet r d vs keys ops) => print_met (run_met r d vs keys ops)
   | Some (CTr r d ops) => print_tr (run_tr r d ops)
   | Some (CLg r d ops) => print_lg (run_lg r d ops)
+  | Some (CPrace kind r d threads) => flat_map print_hobs (prace_model kind r d threads)
   | None => bad_case
   end.
 
@@ -257,6 +325,8 @@ Definition run_spec (l obs : list tok) : list tok :=
       match parse_tr_obs obs with Some (idx, sp) => spec_tr r d ops idx sp | None => fail "obs:unparsable" end
   | Some (CLg r d ops) =>
       match parse_lg_obs obs with Some (idx, rs) => spec_lg r d ops idx rs | None => fail "obs:unparsable" end
+  | Some (CPrace kind r d threads) =>
+      match parse_prace_obs obs with Some hs => spec_prace r d threads hs | None => fail "obs:unparsable" end
   | None => bad_case
   end.
 
@@ -300,5 +370,12 @@ Definition run_tag (l : list tok) : list tok :=
             else if existsb (fun q => has_dup_key (q_attrs q)) ops then "lg_dup_key"
             else if existsb (fun q => negb (compute_config r d (q_scope q))) ops then "lg_some_disabled"
             else if existsb (fun q => negb (is_nil (q_attrs q))) ops then "lg_attrs" else "lg_plain")]
+  | Some (CPrace kind r d threads) =>
+      let shared := existsb (fun p => existsb (fun q => existsb (lreq_eqb q) (snd p)) (fst p))
+                            (pairs_before [] threads) in
+      [tag (if is_nil (concat threads) then "prace_empty"
+            else if (kind =? 0)%N then (if shared then "prace_tracer_shared" else "prace_tracer_disjoint")
+            else if (kind =? 1)%N then (if shared then "prace_meter_shared" else "prace_meter_disjoint")
+            else (if shared then "prace_logger_shared" else "prace_logger_disjoint"))]
   | None => bad_case
   end.
